@@ -94,6 +94,28 @@ def witness(env, vc, model, rec):
     mode = env['mode']
     if mode not in ('af_function', 'forged'):
         return None
+    if mode == 'af_function' and _mb(model, z3.Bool('own___signature___is_a_descriptor')) and _mb(model, z3.Bool('inst_func_signature')):
+        # the object is a class whose own namespace stores a descriptor under __signature__
+        from sigtools import specifiers
+        import sigtools
+
+        class Forwarder:
+            __signature__ = specifiers.as_forged
+
+            def __init__(self, a, *args, **kwargs):
+                pass
+        stored = vars(Forwarder)['__signature__']
+        try:
+            out = ('return', sigtools.signature(Forwarder))
+        except Exception as e:
+            out = ('raise', e)
+        now = vars(Forwarder).get('__signature__')
+        bad = [] if now is stored else [('frame:attributes_restored', "class Forwarder: __signature__ = specifiers.as_forged ...; after sigtools.signature(Forwarder) "
+                                         "vars(Forwarder)['__signature__'] is %r instead of the descriptor" % (now,))]
+        key = ':'.join(vc.name.split('/', 1)[1].split('#')[0].split(':')[:2])
+        hit = [b for b in bad if key.startswith(b[0]) or b[0].startswith(key)]
+        return dict(status='reproduced' if hit else ('other-violation' if bad else 'no-replay'), native_object='class with __signature__ = specifiers.as_forged',
+                    native_outcome=(str(out[1]) if out[0] == 'return' else repr(out[1])), violated=[list(b) for b in (hit or bad)])
     sched = _Schedule(rec['external_events'])
     label = 'func' if mode == 'af_function' else 'obj'
     if label not in rec['objects']:
